@@ -74,6 +74,23 @@ pub fn drive(t: &mut Tracer, tier: &str, seed: u64) {
     giant(t, seed, thorough, false);
     // thorough only: a message of more than 2^32 bytes (block indices beyond 2^26, byte offsets beyond 32 bits; needs about 9 GiB for a minute)
     if thorough { giant(t, seed, thorough, true); }
+    // searched 64-byte blocks (`gmverif findsm3`) for which some round j >= 16 of the first compression starts with two equal registers among the
+    // arguments of FF (A, B, C) or GG (E, F, G), or uses a zero W_j / W'_j -- the specification re-classifies them (class crafted-internal)
+    for hx in [
+        "676d2d727320766572696669636174696f6e3a20534d3320626c6f636b207769746820616e20696e7465726e616c20636f696e636964656e00000900000022a3",
+        "676d2d727320766572696669636174696f6e3a20534d3320626c6f636b207769746820616e20696e7465726e616c20636f696e636964656e0000090000007616",
+        "676d2d727320766572696669636174696f6e3a20534d3320626c6f636b207769746820616e20696e7465726e616c20636f696e636964656e000000000005b2f6",
+        "676d2d727320766572696669636174696f6e3a20534d3320626c6f636b207769746820616e20696e7465726e616c20636f696e636964656e000006000020a198",
+        "676d2d727320766572696669636174696f6e3a20534d3320626c6f636b207769746820616e20696e7465726e616c20636f696e636964656e0000040000419c5b",
+        "676d2d727320766572696669636174696f6e3a20534d3320626c6f636b207769746820616e20696e7465726e616c20636f696e636964656e000005000030eb32",
+        "676d2d727320766572696669636174696f6e3a20534d3320626c6f636b207769746820616e20696e7465726e616c20636f696e636964656e00000a0000494995",
+        "676d2d727320766572696669636174696f6e3a20534d3320626c6f636b207769746820616e20696e7465726e616c20636f696e636964656e00000a000072dbb6",
+    ] {
+        let m = hex::decode(hx).unwrap();
+        hash_event(t, "sm3/crafted", None, &m);
+        let mut longer = m.clone(); longer.extend_from_slice(b"...and a tail after the crafted block");
+        hash_event(t, "sm3/crafted", None, &longer);
+    }
     // boundary lengths around multiples of 64 for longer messages
     let g = Gen::new("mix", rng.below(1 << 20));
     let blocks: &[usize] = if thorough { &[16, 33, 64, 100, 255, 256, 1024] } else { &[16, 33] };
